@@ -54,6 +54,7 @@ type Ctx struct {
 	cspecs    map[string]*compiledSpec
 	specOrder []string
 	memSorts  map[string]string
+	funDecls  []string
 }
 
 func NewCtx(mode Mode, specs *SpecEnv) *Ctx {
@@ -85,7 +86,7 @@ func (c *Ctx) declareFun(name string, args []string, res string) {
 		return
 	}
 	c.declared[name] = true
-	c.decls = append(c.decls, fmt.Sprintf("(declare-fun %s (%s) %s)", name, strings.Join(args, " "), res))
+	c.funDecls = append(c.funDecls, fmt.Sprintf("(declare-fun %s (%s) %s)", name, strings.Join(args, " "), res))
 }
 
 // define introduces a named term in script order and returns the name.
@@ -664,9 +665,62 @@ func (c *Ctx) Prelude() string {
 		sort.Strings(ns)
 		sb.WriteString("(assert (distinct " + strings.Join(ns, " ") + "))\n")
 	}
+	for _, d := range c.funDecls {
+		sb.WriteString(d + "\n")
+	}
 	sb.WriteString(specText)
 	for _, d := range c.decls {
 		sb.WriteString(d + "\n")
 	}
 	return sb.String()
+}
+
+// ---- two-level memory: scalar array elements live in arr_<key> : Array Loc (Array IDX T) ----
+
+// splitLelem recognises a location term of the syntactic form (lelem B I).
+func splitLelem(loc string) (b, i string, ok bool) {
+	if !strings.HasPrefix(loc, "(lelem ") || !strings.HasSuffix(loc, ")") {
+		return
+	}
+	body := loc[len("(lelem ") : len(loc)-1]
+	// first s-expression is B
+	depth := 0
+	for k := 0; k < len(body); k++ {
+		switch body[k] {
+		case '(':
+			depth++
+		case ')':
+			depth--
+		case ' ':
+			if depth == 0 {
+				return body[:k], strings.TrimSpace(body[k+1:]), true
+			}
+		}
+	}
+	return
+}
+
+func flatLoc(loc string) bool {
+	return strings.HasPrefix(loc, "(lfield ") || strings.HasPrefix(loc, "(lroot ") || strings.HasPrefix(loc, "new!") || loc == "lnil"
+}
+
+func (c *Ctx) arrKey(t types.Type) string  { return "arr_" + c.memKey(t) }
+func (c *Ctx) arrSort(t types.Type) string { return fmt.Sprintf("(Array Loc (Array %s %s))", c.idx(), c.sortOf(t)) }
+
+// readLeaf is the value of scalar type t stored at loc.
+func (c *Ctx) readLeaf(mem MemFn, used *[]memUse, loc string, t types.Type) string {
+	use := func(k, s string) string {
+		if used != nil {
+			*used = append(*used, memUse{k, s})
+		}
+		return mem(k, s)
+	}
+	if b, i, ok := splitLelem(loc); ok {
+		return fmt.Sprintf("(select (select %s %s) %s)", use(c.arrKey(t), c.arrSort(t)), b, i)
+	}
+	if flatLoc(loc) {
+		return fmt.Sprintf("(select %s %s)", use(c.memKey(t), c.memSort(t)), loc)
+	}
+	return fmt.Sprintf("(ite ((_ is lelem) %s) (select (select %s (ebase %s)) (eidx %s)) (select %s %s))", loc,
+		use(c.arrKey(t), c.arrSort(t)), loc, loc, use(c.memKey(t), c.memSort(t)), loc)
 }
